@@ -8,7 +8,7 @@ CONSTANTS KeyMenu, MaxBlocks, KeyLists
 VARIABLES container, blocks, orig, all, phase, todo, cur, result, leftdone
 vars == <<container, blocks, orig, all, phase, todo, cur, result, leftdone>>
 scn == <<container, blocks, orig, all>>
-KeyListsDef == { DefaultKeys, <<7>>, <<0, 105>>, <<200, 46, 7>> }
+KeyListsDef == { DefaultKeys, <<7>>, <<0, 105>>, <<200, 46, 7>>, <<7, 200, 7>> }
 
 Wheres(c) == IF c = "xorenc" THEN {"inner", "outer"} ELSE {"outer"}
 FirstView == IF container = "xorenc" THEN "inner" ELSE "outer"
